@@ -340,6 +340,11 @@ structure RegexCfg where
   alts : List Alt
   maxLength : Nat
   strict : Bool
+  /-- which `provide_oov` is modelled: `false` = the pinned code (an empty match reaches
+  `CreatedWords::single(0)`: debug assertion), `true` = the repair `fix: the regex OOV provider ignores an empty
+  match` (`if match_length == 0 { return Ok(0) }`).  Not a setting of the plugin: the harness probes
+  `plugin/oov/regex_oov/mod.rs` and puts `rxempty=skip` on the case line for the repaired tree. -/
+  skipEmpty : Bool := false
 deriving Repr, DecidableEq
 
 /-- the strict-boundary test at the head of `provide_oov`: `some false` = "no discontinuity" (return `Ok(0)`);
@@ -360,7 +365,7 @@ def regexCore (cfg : RegexCfg) (buf : Buf) (offset created : Nat) (existing : Li
   match regexFind cfg.alts ((buf.chars.take (min buf.chars.length (offset + cfg.maxLength))).drop offset) with
   | none => .ok []
   | some k =>
-    if k = 0 then .panic "CreatedWords::single(0)" else
+    if k = 0 then (if cfg.skipEmpty then .ok [] else .panic "CreatedWords::single(0)") else
     match hasWord created k with
     | .yes => .ok []
     | .no => .ok [regexNode cfg offset k]
